@@ -104,7 +104,10 @@ func (_this *Context) StreamStringData(data []byte) (firstRuneBytes []byte, next
 			_this.utf8RemainderBuffer = _this.utf8RemainderBuffer[:remainderLength+bytesCopied]
 			return
 		}
-		firstRuneBytes = _this.utf8RemainderBuffer
+		// Hand the completed rune out in its own storage: the remainder buffer
+		// may be refilled below with the next incomplete rune of this same data.
+		firstRuneBytes = _this.utf8FirstRuneBacking[:requiredByteCount]
+		copy(firstRuneBytes, _this.utf8RemainderBuffer)
 		_this.utf8RemainderBuffer = _this.utf8RemainderBuffer[:0]
 	}
 
